@@ -30,6 +30,9 @@ ASSUMPTIONS = [
 ]
 
 COUNTS = [2, 3, 4, 5, 6, 7, 8, 9, 10]
+# cell size of the chop along a curved edge: 7 cells on the chord (1 / 0.145 = 6.9), 8 on the mean of three straight edges
+# and the arc (1.066 / 0.145 = 7.4)
+ARC_SIZE = 0.145
 
 
 def worker_init():
@@ -137,6 +140,31 @@ def cases(tier, seed):
             if n >= 2 and (tag == "default" or tag.startswith("move") or tier == "thorough") and connected:
                 for b in range(n):
                     out.append({"cells": cells, "placement": tag, "chops": chops, "variants": f"numbering:{b}"})
+    # a curved shared edge that only ONE of the blocks declares, and a chop by cell size along it: the count comes from the
+    # mean length of the block's four edges, which must not depend on who was added first or how a block is numbered
+    for cells, dirs in (([[0, 0, 0], [1, 0, 0]], (1, 2)), ([[0, 0, 0], [1, 0, 0], [1, 1, 0]], (2,))):
+        cells_t = [tuple(c) for c in cells]
+        base = default_placement(cells_t)
+        for g in dirs:
+            for who in ("first", "last"):
+                p1 = [max(a, b) for a, b in zip(cells[0], cells[1])]
+                p2 = list(p1)
+                p2[g] += 1
+                off = [0.0, 0.0, 0.0]
+                off[(g + 1) % 3] = 0.3
+                off[(g + 2) % 3] = 0.1
+                geometry = {"arcs": [[p1, p2, off, who]]}
+                chops = []
+                for fam in base:
+                    (m, kw) = fam["chops"][0]
+                    if [0, g] in fam["members"]:
+                        chops.append([0, g, {"start_size": ARC_SIZE}])
+                    else:
+                        chops.append([m[0], m[1], kw])
+                tag = f"arc_{who}_dir{g}"
+                out.append({"cells": cells, "placement": tag, "chops": chops, "variants": "orders", "geometry": geometry})
+                for b in range(len(cells)):
+                    out.append({"cells": cells, "placement": tag, "chops": chops, "variants": f"numbering:{b}", "geometry": geometry})
     # simplest first
     out.sort(key=lambda c: (len(c["cells"]), c["placement"] != "default"))
     for c in out:
@@ -238,6 +266,8 @@ def run_case(case):
     verdict = None
     for var in variants_of(case):
         script = {"cells": cells, "chops": case["chops"], **var}
+        if case.get("geometry"):
+            script["geometry"] = case["geometry"]
         verdict, fam_counts, fam = gradlab.expected(script)
         res = run_script(script, cap, reps)
         execs += res["execs"]
@@ -260,7 +290,7 @@ def run_case(case):
                     violations.append({"clause": "b-undefined-not-reported", "coords": c2, "detail": f"a family has no chop but writing ended with {o}"})
             if ">retry:" in o and o.split(">retry:")[0] != o.split(">retry:")[1]:
                 violations.append({"clause": "e-retry-ends-differently", "coords": c2, "detail": f"write() ended with {o.split('>retry:')[0]}, the same call repeated on the same mesh with {o.split('>retry:')[1]}"})
-            if verdict == "ok" and o.startswith("ok"):
+            if verdict == "ok" and o.startswith("ok") and not case.get("geometry"):
                 content = reps[int(o.split(":")[1])]
                 bad = check_counts(content, script, fam_counts, fam)
                 if bad:
